@@ -3938,7 +3938,12 @@ class Client:
                 )
                 # Downgrade to MQTT v3.1
                 self._protocol = MQTTv31
-                return self.reconnect()
+                try:
+                    return self.reconnect()
+                except OSError:
+                    # the immediate retry could not connect: report the loss and let the
+                    # normal reconnection logic take over instead of killing the network loop
+                    return MQTTErrorCode.MQTT_ERR_CONN_LOST
             elif (result == CONNACK_REFUSED_IDENTIFIER_REJECTED
                     and self._client_id == b''):
                 if not self._reconnect_on_failure:
@@ -3949,7 +3954,10 @@ class Client:
                     flags, result,
                 )
                 self._client_id = _base62(uuid.uuid4().int, padding=22).encode("utf8")
-                return self.reconnect()
+                try:
+                    return self.reconnect()
+                except OSError:
+                    return MQTTErrorCode.MQTT_ERR_CONN_LOST
 
         if result == 0:
             if self._state != _ConnectionState.MQTT_CS_DISCONNECTING:
